@@ -225,10 +225,15 @@ func c11Specs() []c11Spec {
 			c11Spec{Name: "attach-inflight/" + fault, InFlight: []p9p.Message{attach}, Fault: fault},
 			c11Spec{Name: "blockedread/" + fault, Prelude: []p9p.Message{attach, walkAB, open1}, InFlight: []p9p.Message{read1}, Fault: fault, BlockRead: true},
 			c11Spec{Name: "stat+clunk/" + fault, Prelude: []p9p.Message{attach}, InFlight: []p9p.Message{stat0, clunk0}, Fault: fault},
+			// a flush of the blocked read is itself in flight when the fault strikes
+			c11Spec{Name: "blockedread+flush/" + fault, Prelude: []p9p.Message{attach, walkAB, open1}, InFlight: []p9p.Message{read1, p9p.MessageTflush{Oldtag: 100}}, Fault: fault, BlockRead: true},
 		)
 	}
 	out = append(out,
 		c11Spec{Name: "stat+walknew/close-after-1", Prelude: []p9p.Message{attach}, InFlight: []p9p.Message{stat0, walkNew}, Fault: "close", ReadBack: 1},
+		// a clunk queued behind the blocked read on the same fid, then the flush that releases both
+		c11Spec{Name: "blockedread+clunk+flush/close", Prelude: []p9p.Message{attach, walkAB, open1}, InFlight: []p9p.Message{read1, p9p.MessageTclunk{Fid: 1}, p9p.MessageTflush{Oldtag: 100}}, Fault: "close", BlockRead: true, ReadBack: 2}, // the flushed read is not answered: two replies at most
+		c11Spec{Name: "blockedread+clunk+flush/cancel", Prelude: []p9p.Message{attach, walkAB, open1}, InFlight: []p9p.Message{read1, p9p.MessageTclunk{Fid: 1}, p9p.MessageTflush{Oldtag: 100}}, Fault: "cancel", BlockRead: true},
 		c11Spec{Name: "blockedread+stat/cancel", Prelude: []p9p.Message{attach, walkAB, open1}, InFlight: []p9p.Message{read1, stat0}, Fault: "cancel", BlockRead: true},
 	)
 	return out
@@ -244,7 +249,7 @@ func c11Scenarios() []*explore.Scenario {
 
 func c11(c *core.Ctx) {
 	c.Budget(120*time.Second, 14*time.Minute)
-	c.SetRule("scenarios: ServeConn(SSession(SFileSys(mock))) after negotiation, with nothing / stat / walk-to-new-fid / attach / a read blocked until cancelled / stat+clunk in flight; one fault: peer close (after 0-1 replies), cancellation of the serving context, a write error on any reply, a read error on any read (the latter two as 1 deviation placed at every conn call); file-system calls complete at scheduling points; every interleaving up to the bound. Oracle at quiescence: ServeConn returned, no task it started is still blocked (a handler blocked on its context proves it was not cancelled), Stop ran exactly once, no panic, and with every handler returned no fid is bound and every entry handed to the session was released exactly once. outcome = client end state + replies + handles")
+	c.SetRule("scenarios: ServeConn(SSession(SFileSys(mock))) after negotiation, with nothing / stat / walk-to-new-fid / attach / a read blocked until cancelled (alone, with its own flush, with a clunk of the same fid and the flush) / stat+clunk in flight; one fault: peer close (after 0-1 replies), cancellation of the serving context, a write error on any reply, a read error on any read (the latter two as 1 deviation placed at every conn call); file-system calls complete at scheduling points; every interleaving up to the bound. Oracle at quiescence: ServeConn returned, no task it started is still blocked (a handler blocked on its context proves it was not cancelled), Stop ran exactly once, no panic, and with every handler returned no fid is bound and every entry handed to the session was released exactly once. outcome = client end state + replies + handles")
 	c.Assume("'bounded time' is decided as quiescence with the environment frozen: ServeConn still parked when nothing is enabled is a hang", "handlers return once cancelled (the mock's blocking read returns on ctx.Done())")
 	var plans []Plan
 	for _, sp := range c11Specs() {
